@@ -650,13 +650,13 @@ def _ttm_case(draw, sufficient=False, forms=("list", "list", "int"), pairs=(1, 2
     in_shape = [draw(st.sampled_from(sides)) for _ in range(n)]
     out_shape = [draw(st.sampled_from(sides)) for _ in range(n)]
     shape = in_shape + out_shape
-    cls = draw(st.sampled_from(["normal", "int", "seedint", "ttm_lowrank"]))
+    cls = draw(st.sampled_from(["normal", "int", "seedint", "ttm_lowrank", "pm1"]))
     merged = [a * b for a, b in zip(in_shape, out_shape)]
     if cls == "ttm_lowrank" and n > 1:
         rk = [1] + [draw(st.integers(1, 2)) for _ in range(n - 1)] + [1]
         spec = {"kind": "ttm", "sub": "ttm_lowrank", "in": in_shape, "out": out_shape, "ranks": rk, "seed": draw(gen.seeds)}
     else:
-        spec = draw(_data(shape, ("normal", "int", "seedint")))
+        spec = draw(_data(shape, (cls,) if cls != "ttm_lowrank" else ("normal", "int", "seedint")))
     T = _tensor(spec)
     perm = [j for i in range(n) for j in (i, n + i)]
     Y = np.transpose(T, perm).reshape(merged)
@@ -700,7 +700,7 @@ def _tr_case(draw, kind, rotation):
         mode = draw(st.sampled_from([0, 1]))      # constant ranks (the only safe form at mode >= 2) always truncate later
     else:
         mode = draw(st.sampled_from(list(range(N))))
-    cls = draw(st.sampled_from(["normal", "int", "seedint", "tr", "tr", "cp"]))
+    cls = draw(st.sampled_from(["normal", "int", "seedint", "tr", "tr", "cp", "pm1"]))
     spec = draw(_data(shape, (cls,)))
     cap = min(shape[mode], gen.prod(shape) // shape[mode])
     uniform = rotation == "safe" and mode >= 2
